@@ -76,7 +76,7 @@ def gen_tree(rng, max_entries=30, max_depth=4, kinds="fdl", adversarial=False, s
                 size = rng.choice([0, 0, 1, 2, 3, 5, 7, 10, 12, 13, 99, 100, 101, 512, 1000, 1023, 1024, 1025, 2048, 4096, 10000, 65536, 100000])
             lines = rng.below(6)
             entries.append({"path": path, "kind": "f", "size": size, "mode": mode, "mtime": mt, "lines": lines,
-                            "shebang": rng.chance(1, 8)})
+                            "shebang": rng.chance(1, 8), "mtime_ns": rng.choice([0, 0, 1, 500000000, 750000000, 999999999])})
     return entries
 
 
@@ -99,6 +99,12 @@ def file_bytes(e):
     return bytes(body[:size])
 
 
+def _utime(p, e, follow_symlinks=True):
+    """modification time with an optional sub-second part (`mtime_ns`): the code compares whole seconds"""
+    ns = e["mtime"] * 1000000000 + e.get("mtime_ns", 0)
+    os.utime(p, ns=(ns, ns), follow_symlinks=follow_symlinks)
+
+
 def materialise(root, entries):
     """create the tree under `root` (must exist).  Directories' mtimes/modes are set last."""
     later = []
@@ -116,26 +122,26 @@ def materialise(root, entries):
                 with open(p, "wb") as f:
                     f.write(file_bytes(e))
             os.chmod(p, e.get("mode", 0o644))
-            os.utime(p, (e["mtime"], e["mtime"]))
+            _utime(p, e)
         elif k == "z":
             write_zip(p, e.get("members", []), e.get("compress", False))
             os.chmod(p, e.get("mode", 0o644))
-            os.utime(p, (e["mtime"], e["mtime"]))
+            _utime(p, e)
         elif k == "raw":
             with open(p, "wb") as f:
                 f.write(e["content"])
             os.chmod(p, e.get("mode", 0o644))
-            os.utime(p, (e["mtime"], e["mtime"]))
+            _utime(p, e)
         elif k == "l":
             os.symlink(e["target"], p)
             try:
-                os.utime(p, (e["mtime"], e["mtime"]), follow_symlinks=False)
+                _utime(p, e, follow_symlinks=False)
             except (NotImplementedError, OSError):
                 pass
         elif k == "p":
             os.mkfifo(p, e.get("mode", 0o644))
             os.chmod(p, e.get("mode", 0o644))
-            os.utime(p, (e["mtime"], e["mtime"]))
+            _utime(p, e)
         elif k == "s":
             s = socket.socket(socket.AF_UNIX)
             cwd = os.getcwd()
@@ -145,11 +151,11 @@ def materialise(root, entries):
             finally:
                 os.chdir(cwd)
                 s.close()
-            os.utime(p, (e["mtime"], e["mtime"]))
+            _utime(p, e)
     for e in reversed(later):
         p = os.path.join(root, e["path"])
         os.chmod(p, e.get("mode", 0o755))
-        os.utime(p, (e["mtime"], e["mtime"]))
+        _utime(p, e)
 
 
 def write_zip(path, members, compress=False):
@@ -253,7 +259,7 @@ def node_of(path, rel, name, depth, content_facts=True, max_text=4096, zip_exts=
     kind = KIND_OF.get(stat.S_IFMT(st.st_mode), "?")
     n = {"rel": rel, "name": name, "depth": depth, "kind": kind, "size": st.st_size, "mode": st.st_mode,
          "uid": st.st_uid, "gid": st.st_gid, "nlink": st.st_nlink, "ino": st.st_ino, "dev": st.st_dev,
-         "mtime": int(st.st_mtime), "blocks": st.st_blocks, "target": None, "facts": {},
+         "mtime": st.st_mtime_ns // 1000000000, "blocks": st.st_blocks, "target": None, "facts": {},
          "user": _user(st.st_uid), "group": _group(st.st_gid)}
     f = n["facts"]
     if kind == "l":
